@@ -88,8 +88,11 @@ func reportCalls(fn *ssa.Function, e *ssa.Function, eParam *ssa.Parameter) []*ss
 		if !ok || cl.Call.IsInvoke() {
 			return
 		}
-		if eParam != nil && strip(cl.Call.Value) == ssa.Value(eParam) {
+		if eParam != nil && stripNoSubst(cl.Call.Value) == ssa.Value(eParam) {
 			out = append(out, cl)
+			return
+		}
+		if e == nil {
 			return
 		}
 		for _, g := range resolveFuncValue(cl.Call.Value) {
@@ -175,7 +178,48 @@ func runC37(c *Ctx) {
 		c.Undecided("anchor", "Validate", "error reporter closure not found")
 		return
 	}
-	reports := reportCalls(val, e, nil)
+	// Validate and the unexported validators it was split into (validateQuota(q, e), validateServers(c, e) …):
+	// their parameters are bound to the arguments of their (single) call, so that access paths and the
+	// error reporter handed down as a parameter resolve to Validate's own values.
+	parts := deepFuncs(val, 2)
+	bind := map[*ssa.Parameter]ssa.Value{}
+	for _, f := range parts {
+		if f == val || f.Parent() != nil {
+			continue
+		}
+		if sites := staticCallersOf(f); len(sites) == 1 {
+			for i, p := range f.Params {
+				if i < len(sites[0].Common().Args) {
+					bind[p] = sites[0].Common().Args[i]
+				}
+			}
+		}
+	}
+	savedSubst := activeSubst
+	activeSubst = bind
+	defer func() { activeSubst = savedSubst }()
+	var reports []*ssa.Call
+	for _, f := range parts {
+		if f.Parent() != nil {
+			continue
+		}
+		if f == val {
+			reports = append(reports, reportCalls(f, e, nil)...)
+			continue
+		}
+		c.Analysed(f)
+		for _, p := range f.Params {
+			isE := false
+			for _, g := range resolveFuncValue(strip(p)) {
+				if g == e {
+					isE = true
+				}
+			}
+			if isE {
+				reports = append(reports, reportCalls(f, nil, p)...)
+			}
+		}
+	}
 	c.Info["error_reports_in_Validate"] = len(reports)
 
 	// ---- (1) intervals
@@ -273,7 +317,27 @@ func runC37(c *Ctx) {
 	}
 
 	// every item of every validated collection is examined
-	checkNoEarlyLoopExit(c, "all-items-validated", val)
+	nLoopParts := 0
+	for _, f := range parts {
+		if f.Parent() != nil {
+			continue
+		}
+		hasLoop := false
+		for _, b := range f.Blocks {
+			for _, p := range b.Preds {
+				if b.Dominates(p) {
+					hasLoop = true
+				}
+			}
+		}
+		if hasLoop {
+			nLoopParts++
+			checkNoEarlyLoopExit(c, "all-items-validated", f)
+		}
+	}
+	if nLoopParts == 0 {
+		c.Undecided("all-items-validated", "Validate", "no validation loop found")
+	}
 	checkNoEarlyLoopExit(c, "all-items-validated", c.P.Func(pkgLCfg+":(Config).Validate"))
 
 	// ---- (2) references
@@ -291,6 +355,17 @@ func runC37(c *Ctx) {
 		// the report lies exactly behind the not-found edge: every dominating condition is that lookup's ok (or the loops' range tests)
 		okLookup := false
 		extra := false
+		// (also when the lookup sits in a local predicate such as registered(name))
+		if g, ns := MustCross(rep, func(ed Edge, cond ssa.Value, truth bool) bool {
+			ex, ok := cond.(*ssa.Extract)
+			if !ok || ex.Index != 1 || truth {
+				return false
+			}
+			lk, ok := ex.Tuple.(*ssa.Lookup)
+			return ok && lk.CommaOk && strings.HasSuffix(PathOf(lk.X), ".Servers")
+		}); g && ns > 0 {
+			okLookup = true
+		}
 		for _, ed := range EdgeDominators(rep.Block()) {
 			cond, truth := ed.Cond()
 			if ex, ok := cond.(*ssa.Extract); ok && ex.Index == 1 {
